@@ -146,6 +146,23 @@ def run(ctx):
     ctx.check(both_const >= 1, "LANG-FALLBACK", "fall-through constructs the neutral language", "", "no Language::new(0, 0) fall-through in from_tag", f_from.loc(), fn=f_from.name)
     strs = [Sym(prog, f_tag).val(o) for b in f_tag.blocks for s in b["stmts"] for o in s["rhs"].get("ops", []) if o.get("k") == "const" and "str" in o]
     ctx.check("s:'und'" in strs, "LANG-FALLBACK", "tag() of an unknown language", "\"und\"", "tag() has no \"und\" result: %s" % strs, f_tag.loc(), fn=f_tag.name)
+    # tag(): "und" only when the LANGUAGE is unknown; a known language with an unknown sub-language yields the bare language tag
+    St = Sym(prog, f_tag)
+    und_ok, bare = [], []
+    for bl in f_tag.blocks:
+        if bl["cleanup"]:
+            continue
+        for st in bl["stmts"]:
+            r = st["rhs"]
+            v = St.val(r["ops"][0]) if r.get("ops") else (St.place(r["pl"]) if "pl" in r else "")
+            fs = [(e, tr) for (e, tr, g) in St.bool_facts_at(bl["id"]) if "binary_search" in e]
+            if v == "s:'und'":
+                und_ok.append(len(fs) == 1 and fs[0][1] in (("==", 1), ("notin", (0,))))
+            if re.fullmatch(r"[*&]*k:internal::language::LANGUAGES\[(?:(?!\]\.2\[).)*\]\.1", v):
+                bare.append(len(fs) == 2 and fs[0][1] in (("==", 0), ("notin", (1,))) and fs[1][1] in (("==", 1), ("notin", (0,))))
+    ctx.check(bool(und_ok) and all(und_ok) and any(bare), "LANG-FALLBACK", "tag(): unknown sub-language falls back to the bare language", "",
+              "tag() does not return the language's own tag when only the sub-language is unknown (\"und\" under %s, bare-language result under unknown sub-language: %s): "
+              "a code such as 0x3c09 reads \"und\" instead of \"en\"" % (und_ok, bare), f_tag.loc(), fn=f_tag.name, key="LANG-FALLBACK|tag-bare")
     # from_tag compares the language tag with parts[0] and the sub-language tag with the whole tag (in the function or in a closure it builds)
     from ..lib import closure_caps, outer_view
     caps = closure_caps(prog, f_from, Sf)
